@@ -150,7 +150,7 @@ def run(ctx, env):
                site=site(s["span"]))
     # R2.2
     for (b, i, s) in errs:
-        pe = an.op(body, s["rv"]["ops"][0])
+        pe = an.opx(body, s["rv"]["ops"][0])
         pe = peel(pe)
         ok = False
         why = "Error payload is not a NetflowPacketError aggregate: %s" % canon(pe)
@@ -229,7 +229,7 @@ def run(ctx, env):
 
 
 def error_kind(an, body, s):
-    pe = peel(an.op(body, s["rv"]["ops"][0]))
+    pe = peel(an.opx(body, s["rv"]["ops"][0]))
     if pe[0] == "agg" and "error" in pe[4]:
         ee = peel(pe[3][pe[4].index("error")])
         if ee[0] == "agg":
